@@ -88,6 +88,9 @@ where
                     1 => a * k,
                     _ => a / k,
                 });
+                // multiplication is commutative in value; Decimal's representation (digit count) of 1.0 * 1 and
+                // 1 * 1.0 differs, and the statement does not fix the operand order: accept either
+                let own_commuted = if i < 2 { guard(|| if i == 0 { a * k } else { k * a }).ok() } else { None };
                 let got = guard(|| {
                     let r: Q = match i {
                         0 => k * q,
@@ -100,7 +103,7 @@ where
                 match (own, got) {
                     (Ok(o), Ok((ga, gu))) => {
                         rep.inc("sensitive");
-                        if !amt::same(o, ga) {
+                        if !amt::same(o, ga) && !own_commuted.map(|c| amt::same(c, ga)).unwrap_or(false) {
                             rep.violation("C08/scaled-amount", mk_case(), amt::show(ga), amt::show(o));
                         }
                         if gu != u {
